@@ -1,4 +1,5 @@
 import IcyVerif.Lemmas.TextLoad
+import IcyVerif.Lemmas.SixelShadow
 import IcyVerif.Props.C14
 /-! # C02 — the text-format loaders (`ans ice diz pcb avt asc msg an1-an9 seq ata` and unknown extensions)
 `Buffer::from_bytes` → `load_buffer` → `parse_with_parser` runs a terminal emulation on a FILE buffer
@@ -72,6 +73,8 @@ theorem text_parse_total (m : String) (data : List Nat) (sauce : Option (Nat × 
 theorem text_finish_total (p : Parsed) (fw fh : Int) (hfw : fw ≠ 0) (hfh : fh ≠ 0) (dec : Decoder) (what : String) :
     finish p fw fh dec ≠ .panic what := by
   unfold finish joinSixels
+  rw [IcyVerif.SixelShadow.loadSixelsX_eq]
+  simp only []
   have hc : ∀ id ∈ List.range p.sixq.length, id ∈ [List.range p.sixq.length].flatten := by
     intro id hid; simpa using hid
   rw [IcyVerif.C14.load_schedule_independent _ _ _ hc]
@@ -86,6 +89,59 @@ theorem text_finish_total (p : Parsed) (fw fh : Int) (hfw : fw ≠ 0) (hfh : fh 
   rcases hr { fw := fw, fh := fh, res := resOf dec p.sixq } (List.range p.sixq.length) hfw hfh with h | ⟨l, h⟩
   · rw [h]; intro hh; cases hh
   · rw [h]; intro hh; cases hh
+
+/-! ## the shadow-removal loop of `Buffer::update_sixel_threads` (runs at the end of every text-format load) -/
+
+/-- the source still has the loop the model transcribes (`Model/SixelShadow.lean: shadowLoop`): count taken once, index
+    advanced only when nothing was removed, count decremented on removal, push at the end.  A rewrite (e.g. "collect the
+    indices, then remove them") fails this check and needs a new model. -/
+def shadowLoopSrc : List String := [
+  "let vec = &mut self.layers[0].sixels;",
+  "let mut sixel_count = vec.len();",
+  "let mut i = 0;",
+  "while i < sixel_count {",
+  "let old_rect = vec[i].get_screen_rect(font_dims);",
+  "if screen_rect.contains_rect(&old_rect) {",
+  "vec.remove(i);",
+  "sixel_count -= 1;",
+  "} else {",
+  "i += 1;",
+  "}",
+  "}",
+  "vec.push(sixel);"]
+
+def infixOf (a : List String) : List String → Bool
+  | [] => a.isEmpty
+  | x :: xs => a.isPrefixOf (x :: xs) || infixOf a xs
+
+theorem shadow_loop_pinned :
+    infixOf shadowLoopSrc (IcyVerif.Gen.Sixel.src_update_sixel_threads.filter (fun l => !l.startsWith "//")) = true := by decide +kernel
+
+/-- **the removal loop is total for every list of images**: with the state `(vec, i, sixel_count)` explicit — `vec[i]` and
+    `vec.remove(i)` panic beyond the end, `sixel_count -= 1` panics at 0, running out of `len + 1` iterations is divergence —
+    the loop ends normally for every layer content, every new image and every font size, and leaves exactly the images the new
+    one does not cover, in their order (the C14 list function) -/
+theorem shadow_loop_total (cfg : IcyVerif.SixelQueue.Cfg) (new : IcyVerif.SixelQueue.Img) (vec : List IcyVerif.SixelQueue.Img) :
+    IcyVerif.SixelShadow.shadowLoop cfg new (vec.length + 1) vec 0 vec.length = .ok (IcyVerif.SixelQueue.removeShadowed cfg new vec) :=
+  IcyVerif.SixelShadow.shadowLoop_total cfg new vec
+
+/-- the loop invariant behind it, from ANY reachable loop state: `vec = pre ++ suf`, `i = |pre|`, `sixel_count = |vec|` -/
+theorem shadow_loop_invariant (cfg : IcyVerif.SixelQueue.Cfg) (new : IcyVerif.SixelQueue.Img) (pre suf : List IcyVerif.SixelQueue.Img)
+    (fuel : Nat) (hf : suf.length < fuel) :
+    IcyVerif.SixelShadow.shadowLoop cfg new fuel (pre ++ suf) pre.length (pre.length + suf.length)
+      = .ok (pre ++ IcyVerif.SixelQueue.removeShadowed cfg new suf) :=
+  IcyVerif.SixelShadow.shadowLoop_spec cfg new suf pre fuel hf
+
+/-- the whole sixel join of a text load (any number of queued decodes, any decode results, any font size) never takes the
+    panic exit of the indexed loop, and is the C14 model of the join -/
+theorem sixel_join_total (fw fh : Int) (res : Nat → IcyVerif.SixelQueue.Res) (n : Nat) :
+    joinSixels fw fh res n = .ok (IcyVerif.SixelLoad.loadSixels { fw := fw, fh := fh, res := res } (List.range n) [List.range n]) :=
+  IcyVerif.SixelShadow.loadSixelsX_eq _ _ _
+
+/-- `update_sixel_threads` itself, from any queue / layer state (not only the one a load produces) -/
+theorem sixel_poll_total (cfg : IcyVerif.SixelQueue.Cfg) (s : IcyVerif.SixelQueue.St) (e : String) :
+    IcyVerif.SixelShadow.pollX cfg s ≠ .error e := by
+  rw [IcyVerif.SixelShadow.pollX_eq]; intro h; cases h
 
 /-- **No file content can crash a text loader.** `Buffer::from_bytes` for every extension that selects a text loader —
     `ans ice diz pcb avt asc msg an1..an9 seq ata`, any capitalisation, and every unknown extension (ANSI fallback) —
@@ -181,5 +237,18 @@ example : (match fromBytesText #[65, 66, 10, 10] "ans" true (fun _ => { lineLen 
 example : (match fromBytesText #[65, 13, 66] "seq" true (fun _ => { lineLen := -1, extOk := true }) 8 8 (fun _ _ _ _ => .err) with
     | some (.ok l) => (l.bw, l.bh, l.rows.size, l.cx, l.cy) | _ => (0, 0, 0, 0, 0)) = (40, 25, 25, 1, 1) := by
   decide +kernel
+
+/-- three images, the third covers both earlier ones (the input class of the stale-index regression): both are removed,
+    one image is left; with an uncovered image between them it is the one that stays -/
+example : (IcyVerif.SixelShadow.placeX { fw := 8, fh := 16, res := fun _ => .err } [⟨0, 0, 0, 6, 6⟩, ⟨1, 2, 0, 6, 6⟩] ⟨2, 0, 0, 30, 30⟩).toOption
+    = some [⟨2, 0, 0, 30, 30⟩] := by decide +kernel
+example : (IcyVerif.SixelShadow.placeX { fw := 8, fh := 16, res := fun _ => .err } [⟨0, 0, 0, 6, 6⟩, ⟨1, 40, 0, 6, 6⟩, ⟨2, 2, 0, 6, 6⟩] ⟨3, 0, 0, 30, 30⟩).toOption
+    = some [⟨1, 40, 0, 6, 6⟩, ⟨3, 0, 0, 30, 30⟩] := by decide +kernel
+/-- the panic exits of the state machine are real outcomes: a count that is too large indexes beyond the vector, too little
+    fuel is divergence -/
+example : (match IcyVerif.SixelShadow.shadowLoop { fw := 8, fh := 16, res := fun _ => .err } ⟨9, 0, 0, 30, 30⟩ 9 [⟨0, 0, 0, 6, 6⟩] 0 2 with
+    | .error e => some e | .ok _ => none) = some IcyVerif.SixelShadow.sUpdate := by decide +kernel
+example : (match IcyVerif.SixelShadow.shadowLoop { fw := 8, fh := 16, res := fun _ => .err } ⟨9, 0, 0, 30, 30⟩ 1 [⟨0, 0, 0, 6, 6⟩] 0 1 with
+    | .error e => some e | .ok _ => none) = some IcyVerif.SixelShadow.sDiverge := by decide +kernel
 
 end IcyVerif.C02
